@@ -112,7 +112,7 @@ fn parse_color(word: &str) -> Result<Option<anstyle::Color>, ()> {
         _ => {
             if let Some(hex) = word.strip_prefix('#') {
                 let l = hex.len();
-                if l != 3 && l != 6 {
+                if (l != 3 && l != 6) || !hex.bytes().all(|b| b.is_ascii_hexdigit()) {
                     return Err(());
                 }
                 let l = l / 3;
